@@ -284,6 +284,9 @@ def run_trace(fs, trace, flog, preempt, collect_states=False):
                 if sl.zone is not None and sl.zone[0] == "dup-pairs":
                     if v.get("pair") and frozenset(v["pair"]) in sl.zone[1]:
                         rec["cause"] = "reduce-amount-two-junction-cell"
+                elif sl.zone is not None and sl.zone[0] == "inner-triangle":
+                    if v["inv"] == "I5" and v.get("pair") and any(x in sl.zone[1] for x in v["pair"]):
+                        rec["cause"] = "skeleton-inner-triangle"
                 elif sl.zone is not None:
                     zc, zv = sl.zone
                     if v.get("cell") in zc or v.get("vertex") in zv or \
@@ -393,7 +396,19 @@ def run_trace(fs, trace, flog, preempt, collect_states=False):
                 if not sl.dead:
                     probe("parsed:" + sl.origin)
                 sl.zone = None
-                if not sl.dead and inp["kind"] in ("raster", "image") and inp.get("reduce_amount") \
+                if not sl.dead and inp["kind"] in ("raster", "image") and not inp.get("reduce_amount") \
+                        and MO.check_mesh(*sl.mesh):
+                    # facts for the cause class 'skeleton-inner-triangle': the skeleton parser numbers pixels
+                    # consecutively; an id that is missing afterwards and was not merged by a T3 transition was
+                    # deleted by the inner-triangle (or isolated-cell) clean-up; its contour neighbours are the zone
+                    from . import engine as _eng
+                    t3 = set(_eng.get()["probes"].t3_removed)
+                    ids = set(sl.mesh[0])
+                    top = max([i for i in ids if i not in t3] or [0])
+                    missing = {i for i in range(top) if i not in ids and i not in t3}
+                    if missing and len(missing) <= 12:
+                        sl.zone = ("inner-triangle", {m + d for m in missing for d in (-2, -1, 1, 2)})
+                elif not sl.dead and inp["kind"] in ("raster", "image") and inp.get("reduce_amount") \
                         and MO.check_mesh(*sl.mesh):
                     # facts for the cause class 'reduce-amount-two-junction-cell': the same image parsed
                     # without the collinear-point reduction is consistent and has junction pairs joined by
@@ -605,7 +620,7 @@ def _dup_pair_zone(fs, inp, name):
 
 
 def _in_zone(v, zone):
-    if zone[0] == "dup-pairs":
+    if zone[0] in ("dup-pairs", "inner-triangle"):
         return False
     zc, zv = zone
     if v.get("cell") in zc or v.get("vertex") in zv:
